@@ -178,6 +178,17 @@ theorem c07_err_text_carries (m : Option String) (c : Int) : auxTranslatable = t
   aux_gate
     rfl
 
+/-- the code assumed for an error object that carries none is the one the model's `errOutcome`
+uses (`-32603`, internal error — retryable) -/
+theorem c07_default_code_regenerated : auxTranslatable = true →
+    defaultErrorCode = -32603
+    ∧ ∀ (msg : Option String), (errOutcome (α := Unit) isRetryableError none msg) = .raised true defaultErrorCode msg := by
+  aux_gate
+    refine ⟨by decide, ?_⟩
+    intro msg
+    simp [errOutcome, defaultErrorCode]
+    decide
+
 example : auxTranslatable = true → errText (some "boom") (-32601) = "JSON-RPC Error: boom (code: -32601)" := by
   aux_gate
     decide +kernel
